@@ -1105,6 +1105,46 @@ Section WriteProofs.
     - exists don, eo'. split; [exact Hks|]. split; [exact Hg'|]. simpl. discriminate.
   Qed.
 
+  Lemma ws_write_chunks_eq M c fuel k s data :
+    ws_write_chunks estate ecall M c fuel k s data =
+    if M <? len data then
+      match c with
+      | O => WErr _ true
+      | S c' => match ws_write fuel k s (takeN M data) with
+                | WOk _ s' => ws_write_chunks estate ecall M c' fuel k s' (dropN M data)
+                | WErr _ h => WErr _ h
+                end
+      end
+    else ws_write fuel k s data.
+  Proof. destruct c; reflexivity. Qed.
+
+  Lemma ws_write_chunks_ok k M : 1 <= M -> forall c s pd ci d, (length d <= c)%nat -> wtop k s pd ci ->
+    exists f0 s', (forall fuel, (f0 <= fuel)%nat -> ws_write_chunks estate ecall M c fuel k s d = WOk _ s') /\ wtop k s' pd (ci ++ d).
+  Proof.
+    intros HM. induction c as [|c IH]; intros s pd ci d Hc Ht.
+    - destruct d; [|simpl in Hc; lia].
+      destruct (ws_write_ok k s pd ci [] Ht) as [f0 [s' [HW Ht']]].
+      exists f0, s'. split; [|exact Ht']. intros fuel Hf. rewrite ws_write_chunks_eq.
+      destruct (M <? len (@nil Z)) eqn:E; [apply N.ltb_lt in E; rewrite len_nil in E; lia|].
+      apply HW. exact Hf.
+    - destruct (M <? len d) eqn:E.
+      + assert (E' : M < len d) by (apply N.ltb_lt; exact E).
+        destruct (ws_write_ok k s pd ci (takeN M d) Ht) as [f1 [s1 [HW1 Ht1]]].
+        assert (Hl : (length (dropN M d) <= c)%nat).
+        { pose proof (len_dropN M d) as LD. unfold len in LD, E'. lia. }
+        destruct (IH s1 pd (ci ++ takeN M d) (dropN M d) Hl Ht1) as [f2 [s' [HW2 Ht']]].
+        exists (Nat.max f1 f2), s'. split.
+        * intros fuel Hf. rewrite ws_write_chunks_eq. rewrite E.
+          assert (Hf1 : (f1 <= fuel)%nat) by lia. assert (Hf2 : (f2 <= fuel)%nat) by lia.
+          rewrite (HW1 fuel Hf1). apply HW2. exact Hf2.
+        * rewrite <- app_assoc in Ht'. rewrite takeN_dropN in Ht'. exact Ht'.
+      + destruct (ws_write_ok k s pd ci d Ht) as [f0 [s' [HW Ht']]].
+        exists f0, s'. split; [|exact Ht']. intros fuel Hf. rewrite ws_write_chunks_eq, E. apply HW. exact Hf.
+  Qed.
+
+  Lemma kSizeMax_pos : 1 <= kSizeMax.
+  Proof. unfold kSizeMax. discriminate. Qed.
+
   Lemma ws_flush_ok k s pd ci : k <> KXz -> wtop k s pd ci ->
     exists f0 s', (forall fuel, (f0 <= fuel)%nat -> ws_flush fuel k s = WOk _ s') /\
                   wtop k s' (pd ++ ci) [] /\ w_dirty _ s' = false.
@@ -1136,10 +1176,11 @@ Section WriteProofs.
     - exists 0%nat, s, pd, ci. split; [intros; reflexivity|]. split; [exact Ht|].
       unfold write_plain. simpl. rewrite app_nil_r. reflexivity.
     - destruct op as [d|].
-      + destruct (ws_write_ok k s pd ci d Ht) as [f1 [s1 [HW1 Ht1]]].
+      + destruct (ws_write_chunks_ok k kSizeMax kSizeMax_pos (length d) s pd ci d (le_n _) Ht) as [f1 [s1 [HW1 Ht1]]].
         destruct (IH s1 pd (ci ++ d) Ht1) as [f2 [s' [pd' [ci' [HW2 [Ht' He]]]]]].
         exists (Nat.max f1 f2), s', pd', ci'. split; [|split; [exact Ht'|]].
-        * intros fuel Hfu. cbn [CompressDefs.run_ops]. rewrite (HW1 fuel ltac:(lia)). apply HW2. lia.
+        * intros fuel Hfu. cbn [CompressDefs.run_ops]. unfold CompressDefs.ws_write_full.
+          rewrite (HW1 fuel ltac:(lia)). apply HW2. lia.
         * rewrite He. unfold write_plain. simpl. rewrite !app_assoc. reflexivity.
       + destruct (ws_flush_ok k s pd ci Hk Ht) as [f1 [s1 [HW1 [Ht1 _]]]].
         destruct (IH s1 (pd ++ ci) [] Ht1) as [f2 [s' [pd' [ci' [HW2 [Ht' He]]]]]].
@@ -1233,7 +1274,113 @@ Section WriteProofs.
       + rewrite <- app_assoc in Hm. rewrite takeN_dropN in Hm. exact Hm.
   Qed.
 
-  (* one-shot compression of any record yields one complete gzip member for it *)
+  Notation gzc_feed := (gzc_feed estate ecall).
+  Notation gzc_chunks := (gzc_chunks estate ecall).
+
+  Lemma gzc_ensure_room out size : len out <= size ->
+    len out <= gzc_ensure out size /\ gz_kMinOutput <= gzc_ensure out size - len out.
+  Proof.
+    intros H. unfold gzc_ensure. destruct (size - len out <? gz_kMinOutput) eqn:E.
+    - assert (gz_kMinOutput <= gzc_increment) by (vm_compute; discriminate). lia.
+    - apply N.ltb_ge in E. lia.
+  Qed.
+
+  (* feeding one piece of input: everything is consumed, the output only grows *)
+  Lemma gzc_feed_ok : forall n e inp est ci out size,
+    (length inp <= n)%nat -> (epend est <= e)%nat -> EInv KGz est ci out -> len out <= size ->
+    exists f0 est' out' size',
+      (forall fuel, (f0 <= fuel)%nat -> gzc_feed fuel est inp out size = Some (Some (est', out', size'))) /\
+      EInv KGz est' (ci ++ inp) out' /\ len out' <= size'.
+  Proof.
+    induction n as [n IHn] using lt_wf_ind.
+    induction e as [e IHe] using lt_wf_ind; intros inp est ci out size Hn He HE Hs.
+    destruct inp as [|b inp].
+    { exists 0%nat, est, out, size. rewrite app_nil_r. split; [intros fuel _; destruct fuel; reflexivity|auto]. }
+    destruct (gzc_ensure_room out size Hs) as [Hs1 Hroom].
+    set (size1 := gzc_ensure out size) in *.
+    set (cap := N.min kSizeMax (size1 - len out)).
+    assert (Hcap : 0 < cap).
+    { unfold cap. assert (0 < kSizeMax) by (vm_compute; reflexivity).
+      assert (0 < gz_kMinOutput) by (vm_compute; reflexivity). lia. }
+    pose proof (ecall_run KGz est (b :: inp) cap ci out HE Hcap ltac:(discriminate)) as HC. cbv zeta in HC.
+    change (run_flag KGz) with Z_NO_FLUSH in HC.
+    remember (ecall KGz est Z_NO_FLUSH (b :: inp) cap) as r.
+    destruct HC as [Hu [Ho [Hrc [HE2 Hpend]]]].
+    assert (Hs2 : len (out ++ c_out r) <= size1) by (rewrite len_app; unfold cap in Ho; lia).
+    assert (Hrec : exists f0 est' out' size',
+               (forall fuel, (f0 <= fuel)%nat ->
+                  gzc_feed fuel (c_st r) (dropN (c_used r) (b :: inp)) (out ++ c_out r) size1 = Some (Some (est', out', size'))) /\
+               EInv KGz est' ((ci ++ takeN (c_used r) (b :: inp)) ++ dropN (c_used r) (b :: inp)) out' /\ len out' <= size').
+    { destruct (N.eq_dec (c_used r) 0) as [Z0|Z0].
+      - pose proof (Hpend Z0) as Hlt.
+        apply (IHe (epend (c_st r))); auto; try lia.
+        rewrite Z0, dropN_0. exact Hn.
+      - apply (IHn (length (dropN (c_used r) (b :: inp)))) with (e := epend (c_st r)); auto.
+        pose proof (len_dropN (c_used r) (b :: inp)) as LD. unfold len in LD, Hu. simpl length in *. lia. }
+    destruct Hrec as [f0 [est' [out' [size' [HW [HE' Hs']]]]]].
+    exists (S f0), est', out', size'. split; [|split; [|exact Hs']].
+    - intros fuel Hfu. destruct fuel as [|fuel]; [lia|].
+      cbn [CompressDefs.gzc_feed]. fold size1. fold cap. rewrite <- Heqr. rewrite Hrc.
+      change (run_ok KGz (rc_run KGz)) with true. cbv iota. apply HW. lia.
+    - rewrite <- app_assoc in HE'. rewrite takeN_dropN in HE'. exact HE'.
+  Qed.
+
+  Lemma gzc_chunks_eq M c fuel est data out size :
+    gzc_chunks M c fuel est data out size =
+    if M <? len data then
+      match c with
+      | O => None
+      | S c' =>
+        match gzc_feed fuel est (takeN M data) out size with
+        | Some (Some (est', out', size')) => gzc_chunks M c' fuel est' (dropN M data) out' (gzc_ensure out' size')
+        | Some None => Some None
+        | None => None
+        end
+      end
+    else Some (Some (est, data, out, size)).
+  Proof. destruct c; reflexivity. Qed.
+
+  Lemma gzc_chunks_ok M : 1 <= M -> forall c est ci data out size,
+    (length data <= c)%nat -> EInv KGz est ci out -> len out <= size -> gz_kMinOutput <= size - len out ->
+    exists f0 est' rest out' size',
+      (forall fuel, (f0 <= fuel)%nat -> gzc_chunks M c fuel est data out size = Some (Some (est', rest, out', size'))) /\
+      (exists done, data = done ++ rest /\ EInv KGz est' (ci ++ done) out') /\
+      len out' <= size' /\ gz_kMinOutput <= size' - len out'.
+  Proof.
+    intros HM. induction c as [|c IH]; intros est ci data out size Hc HE Hs Hroom.
+    - destruct data; [|simpl in Hc; lia].
+      exists 0%nat, est, [], out, size. split; [|split; [exists []; split; [reflexivity|rewrite app_nil_r; exact HE]|auto]].
+      intros fuel _. rewrite gzc_chunks_eq.
+      destruct (M <? len (@nil Z)) eqn:E; [apply N.ltb_lt in E; rewrite len_nil in E; lia|reflexivity].
+    - destruct (M <? len data) eqn:E.
+      + assert (E' : M < len data) by (apply N.ltb_lt; exact E).
+        destruct (gzc_feed_ok (length (takeN M data)) (epend est) (takeN M data) est ci out size (le_n _) (le_n _) HE Hs)
+          as [f1 [est1 [out1 [size1 [HW1 [HE1 Hs1]]]]]].
+        destruct (gzc_ensure_room out1 size1 Hs1) as [Hs1' Hroom1].
+        assert (Hl : (length (dropN M data) <= c)%nat).
+        { pose proof (len_dropN M data) as LD. unfold len in LD, E'. lia. }
+        destruct (IH est1 (ci ++ takeN M data) (dropN M data) out1 (gzc_ensure out1 size1) Hl HE1 Hs1' Hroom1)
+          as [f2 [est' [rest [out' [size' [HW2 [[done [Hd HE']] [Hs' Hroom']]]]]]]].
+        exists (Nat.max f1 f2), est', rest, out', size'. split; [|split; [|auto]].
+        * intros fuel Hf. rewrite gzc_chunks_eq, E.
+          assert (Hf1 : (f1 <= fuel)%nat) by lia. assert (Hf2 : (f2 <= fuel)%nat) by lia.
+          rewrite (HW1 fuel Hf1). apply HW2. exact Hf2.
+        * exists (takeN M data ++ done). split.
+          -- rewrite <- app_assoc, <- Hd. symmetry. apply takeN_dropN.
+          -- rewrite app_assoc. exact HE'.
+      + exists 0%nat, est, data, out, size. split; [|split; [exists []; split; [reflexivity|rewrite app_nil_r; exact HE]|auto]].
+        intros fuel _. rewrite gzc_chunks_eq, E. reflexivity.
+  Qed.
+
+  Lemma gzc_pre_skip fuel est inp out size : gz_kMinOutput <= size - len out ->
+    gzc_pre estate ecall fuel est inp out size = Some (Some (est, inp, out, size)).
+  Proof.
+    intros H. assert (E : (size - len out <? gz_kMinOutput) = false) by (apply N.ltb_ge; exact H).
+    destruct fuel; cbn [CompressDefs.gzc_pre]; rewrite E; reflexivity.
+  Qed.
+
+  (* one-shot compression of any record -- of any size, also beyond what zlib takes
+     in one call -- yields one complete gzip member for it *)
   Theorem gzcompress_proof : forall w from,
     exists f0 out, (forall fuel, (f0 <= fuel)%nat -> gz_compress fuel w from = FileOk out) /\
                    member KGz out from.
@@ -1241,13 +1388,16 @@ Section WriteProofs.
     intros w from.
     pose proof (enew_inv w KGz) as HE0.
     destruct (enew w KGz) as [est w'] eqn:EN. simpl in HE0.
-    destruct (gzc_finish_ok (length from) (epend est) from est [] [] gzc_initial) as [f0 [res [HW Hm]]]; auto.
-    { rewrite len_nil. lia. }
-    exists f0, res. split; [|exact Hm].
+    assert (Hs0 : len (@nil Z) <= gzc_initial) by (rewrite len_nil; lia).
+    assert (Hr0 : gz_kMinOutput <= gzc_initial - len (@nil Z)) by (vm_compute; discriminate).
+    destruct (gzc_chunks_ok kSizeMax kSizeMax_pos (length from) est [] from [] gzc_initial (le_n _) HE0 Hs0 Hr0)
+      as [f1 [est1 [rest [out1 [size1 [HW1 [[done [Hd HE1]] [Hs1 Hroom1]]]]]]]].
+    simpl in HE1.
+    destruct (gzc_finish_ok (length rest) (epend est1) rest est1 done out1 size1) as [f2 [res [HW2 Hm]]]; auto.
+    exists (Nat.max f1 f2), res. split; [|rewrite Hd; exact Hm].
     intros fuel Hfu. unfold CompressDefs.gz_compress. rewrite EN.
-    assert (Hpre : gzc_pre estate ecall fuel est from [] gzc_initial = Some (Some (est, from, [], gzc_initial))).
-    { destruct fuel; reflexivity. }
-    rewrite Hpre. apply HW. exact Hfu.
+    rewrite (HW1 fuel ltac:(lia)). rewrite (gzc_pre_skip fuel est1 rest out1 size1 Hroom1).
+    apply HW2. lia.
   Qed.
 End WriteProofs.
 
